@@ -11,12 +11,12 @@ import (
 
 // DEntry is one archive entry as a tar reader reports it.
 type DEntry struct {
-	Name  string
-	Type  byte // tar type flag
-	Mode  int64
+	Name    string
+	Type    byte // tar type flag
+	Mode    int64
 	MtimeNs int64
-	Link  string
-	Body  []byte
+	Link    string
+	Body    []byte
 }
 
 // Node is a node of the model tree.
